@@ -7,7 +7,6 @@ Open Scope string_scope.
 Definition map_range_sites : list (string * string * string) :=
   [("internal/model/model.go", "*BinaryModel.AddOption", "collect-then-sort");
    ("internal/parser/common.go", "WriteCodeToFile", "effects");
-   ("internal/parser/cpp_generator.go", "CppGenerator.generateCodeForPacket", "effects");
    ("internal/parser/cpp_generator.go", "CppGenerator.generateCodeForPacket", "collect-then-sort");
    ("internal/parser/go_generator.go", "GoGenerator.Generate", "keyed-insert");
    ("internal/parser/java_generator.go", "JavaGenerator.Generate", "keyed-insert");
